@@ -121,7 +121,7 @@ HOSTS = ["%s", "x%s", "%sy", "(?=%s)", "(?<!q)%s", "(a)?%s\\1?", "(?>%s)z", "(?:
 
 def run_c17(tier, seed, replay=None):
     res = core.Result("C17", tier, seed)
-    obligations, closed, log = core.coq_property("C17", ["C17_escape_borrow", "C17_quoted_shape", "C17_specials_cover_parser", "C17_parse_escape", "C17_lits_match", "C17_escape_is_find"])
+    obligations, closed, log = core.coq_property("C17", ["C17_escape_borrow", "C17_quoted_shape", "C17_specials_cover_parser", "C17_parse_escape", "C17_lits_match", "C17_escape_is_find", "C17_embedded"])
     proof_ok = all([res.oblige(n, ok) for n, ok in obligations])
     core.build_ocaml()
     core.build_harness()
@@ -540,6 +540,8 @@ def run_c19(tier, seed, replay=None):
                  ("(?x) a{2, # at least two\n      3  # at most three\n   }", "a{2,3}", "x"), ("a(?#comment)b", "ab", "x"), ("\\h", "[0-9A-Fa-f]", "esc"), ("\\H", "[^0-9A-Fa-f]", "esc"),
                  ("\\e", "\\x1B", "esc"), ("\\Aa\\z", "^a$", "esc"), ("(?>a*)", "a*+", "poss"), ("(?>a{2,3}?)b", "a{2,3}?+b", "poss"), ("(a)(b)\\k<-2>", "(a)(b)\\1", "rel"),
                  ("(?<x>a)\\k<x>", "(a)\\1", "named"), ("(?P<x>a)(?P=x)", "(a)\\1", "pnamed"), ("(?i:a)b", "(?:(?i)a)b", "flag"), ("(?x: a b )", "ab", "x"),
+                 # possessive vs atomic under the swap-greed flag
+                 ("(?U)(?>a*)", "(?U)a*+", "poss"), ("(?U)(?>a+)b", "(?U)a++b", "poss"), ("(?U:(?>a*))b", "(?U:a*+)b", "poss"), ("(?U)(?>a*?)", "(?U)a*?+", "poss"), ("(?U)x(?>\\d+)", "(?U)x\\d++", "poss"),
                  # an escaped metacharacter and its hex / unicode escape, with and without (?i)
                  ("a\\$", "a\\x24", "esc"), ("(?i)a\\$", "(?i)a\\x24", "esc"), ("(?i)\\.", "(?i)\\x2e", "esc"), ("(?i)a\\|b", "(?i)a\\x{7c}b", "esc"), ("(?i:\\*)a", "(?i:\\u002A)a", "esc"),
                  ("(?i)(a)\\1\\|b", "(?i)(a)\\1\\x7cb", "esc"), ("(?i)\\(a\\)", "(?i)\\x28a\\x29", "esc"), ("(?i)\\[", "(?i)\\U0000005b", "esc"), ("(?i)\\\\", "(?i)\\x5c", "esc")]
